@@ -82,6 +82,8 @@ class C13(Campaign):
             new["listeners"] = []
         else:
             new["bind"] = rnd.random() < 0.5
+            if new["bind"] and rnd.random() < 0.4:
+                new["bind_conflict"] = rnd.choice(prog["events"])
         names = GARBAGE + [s["id"] for s in prog["states"]] + \
             sorted({c.split(".", 1)[1] for c in prog["cbs"] if c.startswith("machine.")})
         # user-defined attributes of the machine whose evaluation is observable
